@@ -16,6 +16,7 @@ import multiprocessing
 import random
 
 from gsv import common, defeq, gt, symdag
+from _gettsim.config import TYPES_INPUT_VARIABLES
 
 _STATE = {}
 
@@ -33,10 +34,18 @@ def _work(args):
     ck = common.Check.__new__(common.Check)
     ck.queries, ck.solver_time = 0, 0.0
     ck.solve = lambda cons, timeout_s=60: common.Check.solve(ck, cons, timeout_s)
-    out = {"t": t, "diffs": [], "nodes": 0, "queries": 0, "error": None}
+    out = {"t": t, "diffs": [], "nodes": 0, "queries": 0, "error": None, "extra_columns": None}
     try:
         a = symdag.Dag(date, targets=[t])
-        if minimal:
+        if minimal == "sibling":
+            # an additional, unused data column whose name is a time-unit sibling of a rule in the cone of t and
+            # that nothing in the cone reads: the documented inputs plus that column
+            extra = sibling_columns(a, t)
+            out["extra_columns"] = extra
+            if not extra:
+                return out
+            b = symdag.Dag(date, targets=[t], data_cols=[*TYPES_INPUT_VARIABLES, *extra])
+        elif minimal:
             # same target, only the required input columns present (no unused documented columns)
             roots = [n for n in a.graph.nodes if a.kind(n) == "input"]
             b = symdag.Dag(date, targets=[t], data_cols=roots)
@@ -55,6 +64,36 @@ def _work(args):
         out["queries"] = ck.queries
     except Exception as e:   # noqa: BLE001
         out["error"] = f"{type(e).__name__}: {e}"[:200]
+    return out
+
+
+def sibling_columns(dag, t, limit=6):
+    """extra data columns `<base>_<other unit>[_<group>]` for policy RULES `<base>_<unit>[_<group>]` in cone(t) such
+    that no time-unit sibling of the rule (any unit) is in the graph of t or a documented input.  A rule keeps
+    its own definition (C13: rules are never shadowed by derived functions), nothing in the graph reads the
+    column or a node that could be derived from it, so under any reading of the override rules the value of
+    t cannot depend on it.  (Siblings of derived nodes -- automatic aggregations, conversions -- are not used:
+    for those a supplied sibling legitimately becomes the source, C05/C13.)"""
+    import re
+    from _gettsim.config import SUPPORTED_GROUPINGS, SUPPORTED_TIME_UNITS
+    units = list(SUPPORTED_TIME_UNITS)
+    pat = re.compile(r"^(?P<base>.+)_(?P<u>" + "|".join(units) + r")(?P<g>(_(" + "|".join(SUPPORTED_GROUPINGS) + r"))?)$")
+    out = []
+    for n in sorted(cone_nodes(dag, t)):
+        if dag.kind(n) not in ("rule", "paramonly", "skipvec"):
+            continue
+        m = pat.match(n)
+        if not m:
+            continue
+        sibs = [f"{m['base']}_{u}{m['g']}" for u in units if u != m["u"]]
+        if any(sb in dag.graph.nodes or sb in TYPES_INPUT_VARIABLES for sb in sibs):
+            continue
+        # group-level variants of the same base in the graph could be derived from the column as well
+        if any(x != n and x.startswith(m["base"] + "_") and pat.match(x) and pat.match(x)["base"] == m["base"] for x in dag.graph.nodes):
+            continue
+        out.append(sibs[0])
+        if len(out) >= limit:
+            break
     return out
 
 
@@ -147,6 +186,8 @@ def run(tier):
             jobs.append((date, t, other, False))
         for t in pick[: (6 if tier == "quick" else 60)]:
             jobs.append((date, t, None, True))
+        for t in pick[: (10 if tier == "quick" else 80)]:
+            jobs.append((date, t, None, "sibling"))
     with multiprocessing.get_context("fork").Pool(common.JOBS) as pool:
         results = pool.map(_work, jobs, chunksize=1)
     for job, res in zip(jobs, results):
@@ -154,7 +195,9 @@ def run(tier):
         ck.obligations += 1
         ck.queries += res["queries"]
         ck.nontrivial.add((t, minimal))
-        cfg = "only required columns vs all documented inputs" if minimal else f"S={{t}} vs S'=DEFAULT+{{t,{other}}}"
+        cfg = ("documented inputs vs the same plus unused columns named like time-unit siblings of rules in the cone: "
+               f"{res.get('extra_columns')}" if minimal == "sibling" else
+               "only required columns vs all documented inputs" if minimal else f"S={{t}} vs S'=DEFAULT+{{t,{other}}}")
         if len(ck.samples) < 8:
             ck.samples.append({"target": t, "date": str(date), "configurations": cfg, "nodes_compared": res["nodes"], "differences": res["diffs"][:3], "error": res["error"]})
         if res["error"]:
